@@ -20,6 +20,11 @@ def body_of(s, header_re, what):
     return s[j + 1:end - 1]
 
 
+VOCAB = {'if', 'else', 'for', 'while', 'return', 'int', 'vkey', 'vobj', 'void', 'NULL', 'my_name', 'masa_name', 'anim_n', 'anim_p', 'anim_at', 'anim_push',
+         'ms_new', 'ms_delete', 'OBJ_NAME', 'KEY_EMPTY', 'MASA_MAP', 'VEND', 'GHOST_MSG', 'GHOST_EXIT', '_master_pointer', '_master_map_size', '_master_map_val',
+         '_master_map_present', '_master_map_find', '_master_map_set', '_master_map_begin', '_master_map_next', '_master_map_clear', 'selected', 'break', 'continue'}
+
+
 def common_rules(t, hits, fname):
     def sub(rule, pat, rep):
         nonlocal t
@@ -51,6 +56,8 @@ def common_rules(t, hits, fname):
     sub('delete', r'delete \* it ;', r'ms_delete ( anim_p [ anim_at ( it ) ] ) ;')
     sub('delete', r'delete iter -> second ;', r'ms_delete ( _master_map_val [ iter ] ) ;')
     sub('delete', r'delete (\w+) -> second ;', r'ms_delete ( _master_map_val [ \1 ] ) ;')
+    sub('delete', r'delete _master_pointer ;', r'if ( _master_pointer != 0 ) ms_delete ( _master_pointer ) ;')      # delete of a null pointer is a no-op in C++
+    sub('count', r'_master_map \. count \( (\w+) \)', r'( _master_map_find ( \1 ) != VEND ? 1 : 0 )')
     # map iteration / lookup
     sub('find', MT + r' :: iterator (\w+) = _master_map \. find \( (\w+) \) ;', r'int \1 = _master_map_find ( \2 ) ;')
     sub('end', r'(\w+) != _master_map \. end \( \)', r'\1 != VEND')
@@ -70,6 +77,12 @@ def common_rules(t, hits, fname):
         if bad in t:
             k = t.index(bad)
             raise ExtractionBreak('%s: %r not covered by the rule table near: %s' % (fname, bad.strip(), t[max(0, k - 70):k + 70]))
+    # every identifier must belong to the registry vocabulary (globals of contracts/registry.spec.h + vstore.h, parameters, declared locals)
+    local = set(re.findall(r'\b(?:int|vkey|vobj) (\w+)\b', t))
+    for ident in re.findall(r'[A-Za-z_]\w*', t):
+        if ident in VOCAB or ident in local or ident.startswith(('ID_', 'LOOP_reg__', 'reg__')):
+            continue
+        raise ExtractionBreak('%s refers to %r, which is not in the vocabulary of the registry contracts (new state or a new callee needs a contract first)' % (fname, ident))
     t = re.sub(r' ; ', ' ;\n', t)
     t = re.sub(r'(\{|\})', r'\n\1\n', t)
     return t
